@@ -274,7 +274,10 @@ func runCtl(j Job) Outcome {
 				What: "attack goroutines alive after the results channel was closed", Observed: fmt.Sprint(alive)})
 		}
 		if !c.Stopped() {
-			out.Findings = append(out.Findings, Finding{Kind: "not_stopped_at_end", What: "the attack ended without the stop signal being raised"})
+			// the property does not say that the attack raises the stop signal itself when it ends on its own — only
+			// that among all Stop calls exactly one reports true. The unchanged code does (deferred Stop), the model too:
+			// a difference here is a broken tie, not a violation
+			out.Findings = append(out.Findings, Finding{Kind: "model_only:not_stopped_at_end", What: "the attack ended without the stop signal being raised"})
 		}
 	}
 	trues := 0
@@ -482,7 +485,7 @@ func runStress(j Job) Outcome {
 		out.Findings = append(out.Findings, Finding{Kind: "goroutine_left_behind", What: "stress: attack goroutines alive after the channel was closed", Observed: fmt.Sprint(alive)})
 	} else if atk.Stop() {
 		// the attack's own deferred Stop runs after close(results); once its goroutine is gone it has run
-		out.Findings = append(out.Findings, Finding{Kind: "stop_true_after_end", What: "Stop returned true after every goroutine of the attack had gone (its own deferred Stop must have been the initiating call)"})
+		out.Findings = append(out.Findings, Finding{Kind: "model_only:stop_true_after_end", What: "Stop returned true after every goroutine of the attack had gone (in the unchanged code its own deferred Stop is the initiating call)"})
 	}
 	return out
 }
@@ -605,6 +608,11 @@ func RunCommon(prop string, c *run.Ctx, s *kit.Summary, children func([]Job, int
 			// the two checks share these runs; each reports as a violation only what ITS property says. A finding
 			// of the sibling property still means the run cannot be explained by the model: a broken tie.
 			c03kind := f.Kind == "inflight_exceeds_max" || f.Kind == "free_capacity_not_used"
+			if strings.HasPrefix(f.Kind, "model_only:") {
+				jb, _ := json.Marshal(o.Job)
+				s.Diverge(f.Kind, string(jb), f.What, "as the unchanged code and the model do (not demanded by the property text)")
+				continue
+			}
 			if (prop == "C03") != c03kind {
 				jb, _ := json.Marshal(o.Job)
 				s.Diverge("sibling-property:"+f.Kind, string(jb), f.What+" — observed "+f.Observed, "holds (finding of the sibling property "+map[bool]string{true: "C03", false: "C02"}[c03kind]+")")
